@@ -40,11 +40,15 @@ import Cx.Proofs.Utf8
         isBranchDispatchPattern_eq              predicate = "meta builds a dispatcher"
         branchDispatcher_eq_reference, branchDispatcher_isMatch_eq_reference
                                                 (hyps. `FoldSound hasFold`, `RefDepthOK re`: neither restricts the dispatcher)
-  (5) ExtractFirstBytes  (nfa/firstbytes.go, after the case-folding / multi-byte fix)
+  (5) ExtractFirstBytes  (nfa/firstbytes.go, after the case-folding / multi-byte fix and the assertion fix)
         extract_inv, firstBytes_complete        any pattern: non-nil ⇒ `complete`, `count` = number of members
         firstBytes_literal_orbit                every member of the `SimpleFold` orbit contributes its lead byte
-        extract_sound, firstBytes_filter_sound  (hyps. `fbFrag`: no zero-width node in first position, no U+FFFD literal;
-                                                `OrbitSound`: a fact about `unicode.SimpleFold`)
+        assertOnly_run                          an `isAssertionOnly` element is zero-width for the reference matcher
+        extract_sound, firstBytes_filter_sound  EVERY pattern with a non-nil set (hyps. `fbFrag`: no U+FFFD literal in first
+                                                position, no negative `Min` — nothing structural; `OrbitSound`: a fact
+                                                about `unicode.SimpleFold`)
+        firstBytes_filter_sound_wellformed      the same with U+FFFD literals allowed (`fbMinOK`), for haystacks that
+                                                begin with a well-formed rune (`WellFormedAt h 0`)
         firstBytes_reject_sound                 the callers' shortcut for `\A…`: byte not in the set ⇒ no match at all
 -/
 namespace Cx.Fast
@@ -2183,6 +2187,18 @@ theorem run_rep_succ (h : Bytes) (f : Nat) (x : Re) (m : Nat) (mx : Option Nat) 
       run h f (.one x) pos fun p => run h f (.rep x m (mx.map (· - 1)) lazy) p k := by
   rw [run]
 
+theorem run_star (h : Bytes) (f : Nat) (x : Re) (lazy : Bool) (pos : Nat) (k : Nat → Option Nat) :
+    run h (f+1) (.star x lazy) pos k =
+      if lazy then
+        orElse (k pos) fun _ => run h f (.one x) pos fun p => if p > pos then run h f (.star x lazy) p k else none
+      else
+        orElse (run h f (.one x) pos fun p => if p > pos then run h f (.star x lazy) p k else none) fun _ => k pos := by
+  rw [run]
+
+theorem run_seq_nil (h : Bytes) (f : Nat) (pos : Nat) (k : Nat → Option Nat) :
+    run h (f+1) (.seq []) pos k = k pos := by
+  rw [run]
+
 end Ref
 
 /-! ### the first-byte set as a rejection filter
@@ -2190,8 +2206,11 @@ end Ref
   Two results about `extractFirstBytesRec`:
   * `extract_inv` (no hypothesis on the pattern): a successful step keeps the table a 256-entry table, only adds
     members, keeps `complete`, and keeps `count` equal to the number of members;
-  * `extract_sound` (hypothesis `fbFrag`, see Cx.Spec.Fast): every successful run of the reference matcher that starts
-    INSIDE the haystack starts on a member of the set. -/
+  * `extract_sound`: whenever the step succeeds, every successful run of the reference matcher that starts INSIDE the
+    haystack starts on a member of the set.  No structural hypothesis on the pattern: a bare assertion makes the step
+    fail, and a concatenation skips its leading assertion-only elements, which are zero-width (`assertOnly_run`).  The
+    side conditions `fbSide` (Cx.Spec.Fast) concern the reference semantics of a literal starting with U+FFFD (tradeable
+    for well-formedness of the haystack at the position) and the parser invariant `Min ≥ 0`. -/
 
 theorem decode_ascii_inv (h : Bytes) (pos : Nat) (hw : (Utf8.decodeAt h pos).2 > 0)
     (hc : (Utf8.decodeAt h pos).1 ≤ 127) : h.at pos = (Utf8.decodeAt h pos).1 ∧ pos < h.size := by
@@ -2234,9 +2253,11 @@ theorem encodeFirst_lt (m : Nat) : encodeFirst m < 256 := by
         · simp only [List.headD_cons]; omega
         · simp only [List.headD_cons]; omega
 
-/-- unless the decoder reports U+FFFD, the byte it started on is the first byte of the encoding of the rune it reports -/
+/-- unless the decoder reports an ILL-FORMED byte (U+FFFD of width 1), the byte it started on is the first byte of the
+    encoding of the rune it reports -/
 theorem decode_first_byte (h : Bytes) (pos : Nat) (hb : ∀ k, h.at k < 256) (hw : (Utf8.decodeAt h pos).2 > 0)
-    (hc : (Utf8.decodeAt h pos).1 ≠ Utf8.runeError) : h.at pos = encodeFirst (Utf8.decodeAt h pos).1 := by
+    (hc : (Utf8.decodeAt h pos).1 ≠ Utf8.runeError ∨ (Utf8.decodeAt h pos).2 ≠ 1) :
+    h.at pos = encodeFirst (Utf8.decodeAt h pos).1 := by
   have hp := decode_width_pos h pos hw
   by_cases h1 : (Utf8.decodeAt h pos).2 = 1
   · rcases Utf8.decode_width_one h pos hp h1 with ⟨hlt, he⟩ | ⟨_, he⟩
@@ -2244,51 +2265,166 @@ theorem decode_first_byte (h : Bytes) (pos : Nat) (hb : ∀ k, h.at k < 256) (hw
       unfold encodeFirst Utf8.encode
       rw [if_pos hlt]
       rfl
-    · exact absurd he hc
+    · rcases hc with hc | hc
+      · exact absurd he hc
+      · exact absurd h1 hc
   · have henc := Utf8.decode_wide_is_encoding h pos hb (by omega)
     unfold encodeFirst
     rw [← henc]
     obtain ⟨w, hw'⟩ : ∃ w, (Utf8.decodeAt h pos).2 = w + 1 := ⟨(Utf8.decodeAt h pos).2 - 1, by omega⟩
     rw [hw', List.range_succ_eq_map, List.map_cons, List.headD_cons, Nat.add_zero]
 
-/-- every successful run of the task that starts inside the haystack starts on a byte of `S` -/
-def FirstOK (S : Nat → Bool) (t : Ref.Task) : Prop :=
-  ∀ (h : Bytes), (∀ i, h.at i < 256) → ∀ f pos k e, Ref.run h f t pos k = some e → pos < h.size → S (h.at pos) = true
+/-- the two ways the literal case excludes an ill-formed byte read as U+FFFD: the literal does not start with U+FFFD
+    (`lit = true`), or the haystack is well-formed at the position -/
+theorem lit_guard (lit : Bool) (r c w : Nat) (hfr : (!lit || decide (r ≠ Utf8.runeError)) = true)
+    (hg : lit = true ∨ ¬ (c = Utf8.runeError ∧ w = 1)) (hrc : c = Utf8.runeError → r = Utf8.runeError) :
+    c ≠ Utf8.runeError ∨ w ≠ 1 := by
+  cases lit with
+  | true =>
+    simp only [Bool.not_true, Bool.false_or, decide_eq_true_eq] at hfr
+    exact Or.inl fun hc => hfr (hrc hc)
+  | false =>
+    rcases hg with hg | hg
+    · exact absurd hg (by decide)
+    · by_cases hc : c = Utf8.runeError
+      · exact Or.inr fun hw => hg ⟨hc, hw⟩
+      · exact Or.inl hc
 
-theorem FirstOK.mono {S S' : Nat → Bool} {t : Ref.Task} (hs : ∀ j, S j = true → S' j = true) (h : FirstOK S t) :
-    FirstOK S' t := fun hh hb f pos k e hr hp => hs _ (h hh hb f pos k e hr hp)
+/-- every successful run of the task that starts inside the haystack starts on a byte of `S` — with `lit = false` only
+    at positions where the haystack is well-formed (no ill-formed byte read as U+FFFD) -/
+def FirstOK (lit : Bool) (S : Nat → Bool) (t : Ref.Task) : Prop :=
+  ∀ (h : Bytes), (∀ i, h.at i < 256) → ∀ f pos k e, Ref.run h f t pos k = some e → pos < h.size →
+    (lit = true ∨ WellFormedAt h pos) → S (h.at pos) = true
 
-theorem firstOK_seq_cons {S : Nat → Bool} {x : Re} (xs : List Re) (hx : FirstOK S (.one x)) :
-    FirstOK S (.seq (x :: xs)) := by
-  intro h hb f pos k e hr hp
+theorem FirstOK.mono {lit : Bool} {S S' : Nat → Bool} {t : Ref.Task} (hs : ∀ j, S j = true → S' j = true) (h : FirstOK lit S t) :
+    FirstOK lit S' t := fun hh hb f pos k e hr hp hg => hs _ (h hh hb f pos k e hr hp hg)
+
+theorem firstOK_seq_cons {lit : Bool} {S : Nat → Bool} {x : Re} (xs : List Re) (hx : FirstOK lit S (.one x)) :
+    FirstOK lit S (.seq (x :: xs)) := by
+  intro h hb f pos k e hr hp hg
   cases f with
   | zero => rw [Ref.run_zero] at hr; exact nomatch hr
   | succ f =>
     rw [Ref.run_seq_cons] at hr
-    exact hx h hb f pos _ e hr hp
+    exact hx h hb f pos _ e hr hp hg
 
-theorem firstOK_seq_anchor {S : Nat → Bool} {a : Re} (xs : List Re) (ha : a.op = .beginLine ∨ a.op = .beginText)
-    (hxs : FirstOK S (.seq xs)) : FirstOK S (.seq (a :: xs)) := by
-  intro h hb f pos k e hr hp
-  cases f with
-  | zero => rw [Ref.run_zero] at hr; exact nomatch hr
-  | succ f =>
-    rw [Ref.run_seq_cons] at hr
+/-- `isAssertionOnly` along the accessors (the definition pattern-matches on the constructor) -/
+theorem isAssertionOnly_eq (re : Re) : isAssertionOnly re =
+    match re.op with
+    | .beginLine | .beginText | .endLine | .endText => true
+    | .capture | .plus => (match re.sub with | [x] => isAssertionOnly x | _ => false)
+    | .concat => allAssertionOnly re.sub && !re.sub.isEmpty
+    | _ => false := by
+  cases re with
+  | mk op a b sub r mn mx =>
+    cases op <;> first | rfl | skip
+    all_goals (rcases sub with _ | ⟨x, _ | ⟨y, ys⟩⟩) <;> simp only [isAssertionOnly, Re.op, Re.sub]
+
+theorem allAssertionOnly_cons (x : Re) (xs : List Re) :
+    allAssertionOnly (x :: xs) = (isAssertionOnly x && allAssertionOnly xs) := by
+  rw [allAssertionOnly]
+
+/-- **an assertion-only element is zero-width**: whenever the reference matcher gets through it, it has called the
+    continuation at the position it started from (and returns that answer).  Induction on the fuel, which bounds the
+    nesting. -/
+theorem assertOnly_run (h : Bytes) : ∀ n f, f ≤ n → ∀ a, isAssertionOnly a = true → ∀ pos (k : Nat → Option Nat) e,
+    Ref.run h f (.one a) pos k = some e → k pos = some e := by
+  intro n
+  induction n with
+  | zero =>
+    intro f hf a _ pos k e hr
+    obtain rfl : f = 0 := by omega
+    rw [Ref.run_zero] at hr; exact nomatch hr
+  | succ n ih =>
+    intro f hf a ha pos k e hr
     cases f with
     | zero => rw [Ref.run_zero] at hr; exact nomatch hr
     | succ f =>
+      have hfn : f ≤ n := by omega
+      -- a sequence of assertion-only elements
+      have hseq : ∀ (l : List Re), allAssertionOnly l = true → ∀ g, g ≤ n → ∀ e', Ref.run h g (.seq l) pos k = some e' →
+          k pos = some e' := by
+        intro l
+        induction l with
+        | nil =>
+          intro _ g _ e' hr'
+          cases g with
+          | zero => rw [Ref.run_zero] at hr'; exact nomatch hr'
+          | succ g => rw [Ref.run_seq_nil] at hr'; exact hr'
+        | cons x xs ihl =>
+          intro hl g hg e' hr'
+          rw [allAssertionOnly_cons, Bool.and_eq_true] at hl
+          cases g with
+          | zero => rw [Ref.run_zero] at hr'; exact nomatch hr'
+          | succ g =>
+            rw [Ref.run_seq_cons] at hr'
+            exact ihl hl.2 g (by omega) e' (ih g (by omega) x hl.1 pos _ e' hr')
+      have hone : ∀ x, isAssertionOnly x = true → ∀ e', Ref.run h f (.seq [x]) pos k = some e' → k pos = some e' := by
+        intro x hx e' hr'
+        exact hseq [x] (by rw [allAssertionOnly_cons, hx]; rfl) f hfn e' hr'
+      rw [isAssertionOnly_eq] at ha
       rw [Ref.run_one] at hr
-      rcases ha with ha | ha <;> rw [ha] at hr <;> simp only [] at hr
-      · split at hr
-        · exact hxs h hb _ pos k e hr hp
+      cases hop : a.op <;> rw [hop] at ha hr <;> simp only [] at ha hr
+      all_goals first | exact absurd ha Bool.false_ne_true | skip
+      · split at hr                                  -- beginLine
+        · exact hr
         · exact nomatch hr
-      · split at hr
-        · exact hxs h hb _ pos k e hr hp
+      · split at hr                                  -- endLine
+        · exact hr
         · exact nomatch hr
+      · split at hr                                  -- beginText
+        · exact hr
+        · exact nomatch hr
+      · split at hr                                  -- endText
+        · exact hr
+        · exact nomatch hr
+      · -- capture
+        rcases hsub : a.sub with _ | ⟨x, _ | ⟨y, ys⟩⟩ <;> rw [hsub] at ha <;> simp only [] at ha
+        · exact absurd ha Bool.false_ne_true
+        · rw [hsub] at hr; exact hone x ha e hr
+        · exact absurd ha Bool.false_ne_true
+      · -- plus: the first iteration is zero-width, a further one is abandoned by the reference matcher
+        rcases hsub : a.sub with _ | ⟨x, _ | ⟨y, ys⟩⟩ <;> rw [hsub] at ha <;> simp only [] at ha
+        · exact absurd ha Bool.false_ne_true
+        · rw [hsub] at hr
+          simp only [] at hr
+          have hstar := ih f hfn x ha pos _ e hr
+          cases f with
+          | zero => rw [Ref.run_zero] at hstar; exact nomatch hstar
+          | succ f =>
+            rw [Ref.run_star] at hstar
+            have hagain : Ref.run h f (.one x) pos
+                (fun p => if p > pos then Ref.run h f (.star x a.nonGreedy) p k else none) = none := by
+              cases hag : Ref.run h f (.one x) pos
+                  (fun p => if p > pos then Ref.run h f (.star x a.nonGreedy) p k else none) with
+              | none => rfl
+              | some e' =>
+                have := ih f (by omega) x ha pos _ e' hag
+                rw [if_neg (Nat.lt_irrefl pos)] at this
+                exact nomatch this
+            rw [hagain] at hstar
+            unfold Ref.orElse at hstar
+            cases hk : k pos with
+            | none => rw [hk] at hstar; simp at hstar
+            | some e' => rw [hk] at hstar; simpa using hstar
+        · exact absurd ha Bool.false_ne_true
+      · -- concat
+        rw [Bool.and_eq_true] at ha
+        exact hseq a.sub ha.1 f hfn e hr
 
-theorem firstOK_seq_find {S : Nat → Bool} (l : List Re) (x : Re)
-    (hf : l.find? (fun s => !(decide (s.op = .beginLine) || decide (s.op = .beginText))) = some x)
-    (hx : FirstOK S (.one x)) : FirstOK S (.seq l) := by
+/-- a leading assertion-only element of a concatenation is skipped: what follows starts at the same position -/
+theorem firstOK_seq_assert {lit : Bool} {S : Nat → Bool} {a : Re} (xs : List Re) (ha : isAssertionOnly a = true)
+    (hxs : FirstOK lit S (.seq xs)) : FirstOK lit S (.seq (a :: xs)) := by
+  intro h hb f pos k e hr hp hg
+  cases f with
+  | zero => rw [Ref.run_zero] at hr; exact nomatch hr
+  | succ f =>
+    rw [Ref.run_seq_cons] at hr
+    exact hxs h hb f pos k e (assertOnly_run h f f (Nat.le_refl f) a ha pos _ e hr) hp hg
+
+theorem firstOK_seq_find {lit : Bool} {S : Nat → Bool} (l : List Re) (x : Re)
+    (hf : l.find? (fun s => !isAssertionOnly s) = some x)
+    (hx : FirstOK lit S (.one x)) : FirstOK lit S (.seq l) := by
   induction l with
   | nil => exact nomatch hf
   | cons a l ih =>
@@ -2296,20 +2432,21 @@ theorem firstOK_seq_find {S : Nat → Bool} (l : List Re) (x : Re)
     split at hf
     · cases hf; exact firstOK_seq_cons l hx
     · rename_i hna
-      have ha : a.op = .beginLine ∨ a.op = .beginText := by
-        simp only [Bool.not_eq_false', Bool.or_eq_true, decide_eq_true_eq] at hna
-        simpa using hna
-      exact firstOK_seq_anchor l ha (ih hf)
+      have ha : isAssertionOnly a = true := by
+        cases hh : isAssertionOnly a with
+        | true => rfl
+        | false => rw [hh] at hna; exact absurd hna (by decide)
+      exact firstOK_seq_assert l ha (ih hf)
 
-theorem firstOK_alts {S : Nat → Bool} (l : List Re) (hl : ∀ x ∈ l, FirstOK S (.one x)) : FirstOK S (.alts l) := by
+theorem firstOK_alts {lit : Bool} {S : Nat → Bool} (l : List Re) (hl : ∀ x ∈ l, FirstOK lit S (.one x)) : FirstOK lit S (.alts l) := by
   induction l with
   | nil =>
-    intro h hb f pos k e hr _
+    intro h hb f pos k e hr _ _
     cases f with
     | zero => rw [Ref.run_zero] at hr; exact nomatch hr
     | succ f => rw [Ref.run_alts_nil] at hr; exact nomatch hr
   | cons x xs ih =>
-    intro h hb f pos k e hr hp
+    intro h hb f pos k e hr hp hg
     cases f with
     | zero => rw [Ref.run_zero] at hr; exact nomatch hr
     | succ f =>
@@ -2317,8 +2454,8 @@ theorem firstOK_alts {S : Nat → Bool} (l : List Re) (hl : ∀ x ∈ l, FirstOK
       unfold Ref.orElse at hr
       split at hr
       · rename_i e' he
-        exact hl x List.mem_cons_self h hb f pos k e' he hp
-      · exact ih (fun y hy => hl y (List.mem_cons_of_mem _ hy)) h hb f pos k e hr hp
+        exact hl x List.mem_cons_self h hb f pos k e' he hp hg
+      · exact ih (fun y hy => hl y (List.mem_cons_of_mem _ hy)) h hb f pos k e hr hp hg
 
 /-- what one successful extraction step guarantees on EVERY pattern -/
 structure ExtractInv (res res' : FirstByteSet) : Prop where
@@ -2409,10 +2546,6 @@ theorem extract_inv (fo : Nat → List Nat) : ∀ fuel re res res', res.Ok →
       obtain ⟨_, hres⟩ := Prod.mk.inj hx
       subst hres
       exact foldl_addNew_inv _ (fun b hb => List.mem_range.mp hb) res hok
-    · cases hx; exact ExtractInv.refl res hok   -- beginLine
-    · cases hx; exact ExtractInv.refl res hok   -- endLine
-    · cases hx; exact ExtractInv.refl res hok   -- beginText
-    · cases hx; exact ExtractInv.refl res hok   -- endText
     · exact one true res hx                      -- capture
     · exact one true res hx                      -- plus
     · -- repeat_
@@ -2420,17 +2553,17 @@ theorem extract_inv (fo : Nat → List Nat) : ∀ fuel re res res', res.Ok →
       · cases hx
       · exact one true res hx
     · -- concat
-      cases hfind : re.sub.find? (fun s => !(decide (s.op = .beginLine) || decide (s.op = .beginText))) with
+      cases hfind : re.sub.find? (fun s => !isAssertionOnly s) with
       | none => rw [hfind] at hx; cases hx
       | some x => rw [hfind] at hx; exact ih x res res' hok hx
     · -- alternate
       exact altLoop_inv fo fuel ih re.sub res res' hok hx
 
-theorem altLoop_sound (fo : Nat → List Nat) (fuel : Nat)
-    (ih : ∀ re res res', res.Ok → extractFirstBytesRec fo fuel re res = (true, res') → fbFrag fuel re = true →
-      FirstOK res'.bytes.mem (.one re)) :
+theorem altLoop_sound (fo : Nat → List Nat) (lit : Bool) (fuel : Nat)
+    (ih : ∀ re res res', res.Ok → extractFirstBytesRec fo fuel re res = (true, res') → fbSide lit fuel re = true →
+      FirstOK lit res'.bytes.mem (.one re)) :
     ∀ (l : List Re) (res res' : FirstByteSet), res.Ok → altLoop (extractFirstBytesRec fo fuel) l res = (true, res') →
-      (∀ x ∈ l, fbFrag fuel x = true) → ∀ x ∈ l, FirstOK res'.bytes.mem (.one x) := by
+      (∀ x ∈ l, fbSide lit fuel x = true) → ∀ x ∈ l, FirstOK lit res'.bytes.mem (.one x) := by
   intro l
   induction l with
   | nil => intro res res' _ _ _ x hx; exact nomatch hx
@@ -2453,27 +2586,32 @@ theorem altLoop_sound (fo : Nat → List Nat) (fuel : Nat)
         · exact h1.mono i2.mono
         · exact ihl res1 res' i1.ok hl (fun z hz => hfr z (List.mem_cons_of_mem _ hz)) y hy
 
-/-- **the set collects the first byte of every match**, on the fragment `fbFrag` (Cx.Spec.Fast) -/
-theorem extract_sound (fo : Nat → List Nat) (hfo : OrbitSound fo) : ∀ fuel re res res', res.Ok →
-    extractFirstBytesRec fo fuel re res = (true, res') → fbFrag fuel re = true → FirstOK res'.bytes.mem (.one re) := by
+theorem pair_false_ne {α : Type} {a b : α} (h : (false, a) = (true, b)) : False :=
+  absurd (congrArg Prod.fst h) Bool.false_ne_true
+
+/-- **the set collects the first byte of every match**: whenever the extraction succeeds.  `fbSide lit` (Cx.Spec.Fast)
+    only says that no `{n,…}` in first position has a negative `n` and, for `lit = true`, that no literal there starts
+    with U+FFFD; for `lit = false` the conclusion is restricted to positions where the haystack is well-formed. -/
+theorem extract_sound (fo : Nat → List Nat) (hfo : OrbitSound fo) (lit : Bool) : ∀ fuel re res res', res.Ok →
+    extractFirstBytesRec fo fuel re res = (true, res') → fbSide lit fuel re = true → FirstOK lit res'.bytes.mem (.one re) := by
   intro fuel
   induction fuel with
-  | zero => intro re res res' _ _ hfr; exact nomatch hfr
+  | zero => intro re res res' _ hx _; rw [extractFirstBytesRec] at hx; exact (pair_false_ne hx).elim
   | succ fuel ih =>
     intro re res res' hok hx hfr
     rw [extractFirstBytesRec] at hx
-    rw [fbFrag] at hfr
+    rw [fbSide] at hfr
     cases hop : re.op <;> rw [hop] at hx hfr <;> simp only [] at hx hfr
-    all_goals first | exact absurd hfr (by decide) | skip
+    all_goals first | exact (pair_false_ne hx).elim | skip
     · -- literal
       cases hrune : re.rune with
-      | nil => rw [hrune] at hfr; exact nomatch hfr
+      | nil => rw [hrune] at hx; exact (pair_false_ne hx).elim
       | cons r rs =>
         rw [hrune] at hx hfr
-        simp only [decide_eq_true_eq] at hfr
-        simp only [] at hx
+        simp only [] at hx hfr
         cases hx
-        intro h hb f pos k e hrun hp
+        intro h hb f pos k e hrun hp hg
+        have hg' : lit = true ∨ ¬ ((Utf8.decodeAt h pos).1 = Utf8.runeError ∧ (Utf8.decodeAt h pos).2 = 1) := hg
         cases f with
         | zero => rw [Ref.run_zero] at hrun; exact nomatch hrun
         | succ f =>
@@ -2483,9 +2621,10 @@ theorem extract_sound (fo : Nat → List Nat) (hfo : OrbitSound fo) : ∀ fuel r
           | zero => rw [Ref.run_zero] at hrun; exact nomatch hrun
           | succ f =>
             rw [hrune, Ref.run_lit_cons] at hrun
-            -- the decoded rune is a member of the orbit and is not U+FFFD
+            -- the decoded rune is a member of the orbit and is not an ill-formed byte read as U+FFFD
             have key : ∀ (hw : (Utf8.decodeAt h pos).2 > 0),
-                (Utf8.decodeAt h pos).1 ∈ literalOrbit fo re.foldCase r → (Utf8.decodeAt h pos).1 ≠ Utf8.runeError →
+                (Utf8.decodeAt h pos).1 ∈ literalOrbit fo re.foldCase r →
+                ((Utf8.decodeAt h pos).1 ≠ Utf8.runeError ∨ (Utf8.decodeAt h pos).2 ≠ 1) →
                 (((literalOrbit fo re.foldCase r).map encodeFirst).foldl FirstByteSet.addNew res).bytes.mem (h.at pos) = true := by
               intro hw hmem hne
               rw [FirstByteSet.foldl_addNew_mem _ res hok, decode_first_byte h pos hb hw hne]
@@ -2503,7 +2642,7 @@ theorem extract_sound (fo : Nat → List Nat) (hfo : OrbitSound fo) : ∀ fuel r
                 rw [hfold] at key
                 refine key hw ?_ ?_
                 · rw [← hrc]; exact List.mem_cons_self
-                · rw [← hrc]; exact hfr
+                · exact lit_guard lit r _ _ hfr hg' (fun hce => by rw [hrc, hce])
               · exact nomatch hrun
             | true =>
               rw [hfold] at hrun
@@ -2518,17 +2657,17 @@ theorem extract_sound (fo : Nat → List Nat) (hfo : OrbitSound fo) : ∀ fuel r
                   rcases hfo _ _ hrc with heq | hin
                   · rw [← heq]; exact List.mem_cons_self
                   · exact List.mem_cons_of_mem _ hin
-                · intro hce
+                · refine lit_guard lit r _ _ hfr hg' (fun hce => ?_)
                   rw [hce] at hrc
                   unfold Ref.foldEq Ref.isAsciiLetter Utf8.runeError at hrc
                   simp only [Bool.or_eq_true, Bool.and_eq_true, decide_eq_true_eq] at hrc
-                  unfold Utf8.runeError at hfr
+                  unfold Utf8.runeError
                   omega
               · exact nomatch hrun
     · -- charClass
       obtain ⟨hcnt, hres⟩ := Prod.mk.inj hx
       subst hres
-      intro h hb f pos k e hrun hp
+      intro h hb f pos k e hrun hp hg
       cases f with
       | zero => rw [Ref.run_zero] at hrun; exact nomatch hrun
       | succ f =>
@@ -2563,7 +2702,7 @@ theorem extract_sound (fo : Nat → List Nat) (hfo : OrbitSound fo) : ∀ fuel r
     · -- anyCharNotNL
       obtain ⟨_, hres⟩ := Prod.mk.inj hx
       subst hres
-      intro h hb f pos k e hrun hp
+      intro h hb f pos k e hrun hp hg
       cases f with
       | zero => rw [Ref.run_zero] at hrun; exact nomatch hrun
       | succ f =>
@@ -2584,69 +2723,63 @@ theorem extract_sound (fo : Nat → List Nat) (hfo : OrbitSound fo) : ∀ fuel r
     · -- anyChar
       obtain ⟨_, hres⟩ := Prod.mk.inj hx
       subst hres
-      intro h hb f pos k e hrun hp
+      intro h hb f pos k e hrun hp hg
       rw [FirstByteSet.foldl_addNew_mem _ res hok]
       have := hb pos
       simp [this]
-    · -- endText: `\z` never succeeds inside the haystack
-      intro h hb f pos k e hrun hp
-      cases f with
-      | zero => rw [Ref.run_zero] at hrun; exact nomatch hrun
-      | succ f =>
-        rw [Ref.run_one, hop] at hrun
-        simp only [] at hrun
-        rw [if_neg (show ¬ pos = h.size by omega)] at hrun
-        exact nomatch hrun
     · -- capture
       cases hsub : re.sub with
-      | nil => rw [hsub] at hfr; exact nomatch hfr
+      | nil => rw [hsub] at hx; exact (pair_false_ne hx).elim
       | cons x xs =>
         cases xs with
-        | cons _ _ => rw [hsub] at hfr; exact nomatch hfr
+        | cons _ _ => rw [hsub] at hx; exact (pair_false_ne hx).elim
         | nil =>
           rw [hsub] at hx hfr
           simp only [] at hx hfr
           have hxo := ih x res res' hok hx hfr
-          intro h hb f pos k e hrun hp
+          intro h hb f pos k e hrun hp hg
           cases f with
           | zero => rw [Ref.run_zero] at hrun; exact nomatch hrun
           | succ f =>
             rw [Ref.run_one, hop] at hrun
             simp only [] at hrun
             rw [hsub] at hrun
-            exact firstOK_seq_cons [] hxo h hb f pos k e hrun hp
+            exact firstOK_seq_cons [] hxo h hb f pos k e hrun hp hg
     · -- plus
       cases hsub : re.sub with
-      | nil => rw [hsub] at hfr; exact nomatch hfr
+      | nil => rw [hsub] at hx; exact (pair_false_ne hx).elim
       | cons x xs =>
         cases xs with
-        | cons _ _ => rw [hsub] at hfr; exact nomatch hfr
+        | cons _ _ => rw [hsub] at hx; exact (pair_false_ne hx).elim
         | nil =>
           rw [hsub] at hx hfr
           simp only [] at hx hfr
           have hxo := ih x res res' hok hx hfr
-          intro h hb f pos k e hrun hp
+          intro h hb f pos k e hrun hp hg
           cases f with
           | zero => rw [Ref.run_zero] at hrun; exact nomatch hrun
           | succ f =>
             rw [Ref.run_one, hop] at hrun
             simp only [] at hrun
             rw [hsub] at hrun
-            exact hxo h hb f pos _ e hrun hp
+            exact hxo h hb f pos _ e hrun hp hg
     · -- repeat_
       simp only [Bool.and_eq_true, decide_eq_true_eq] at hfr
       obtain ⟨hmin, hfr⟩ := hfr
-      rw [if_neg (by omega)] at hx
+      split at hx
+      · exact (pair_false_ne hx).elim
+      rename_i hmin0
+      simp only [ge_iff_le] at hmin
       cases hsub : re.sub with
-      | nil => rw [hsub] at hfr; exact nomatch hfr
+      | nil => rw [hsub] at hx; exact (pair_false_ne hx).elim
       | cons x xs =>
         cases xs with
-        | cons _ _ => rw [hsub] at hfr; exact nomatch hfr
+        | cons _ _ => rw [hsub] at hx; exact (pair_false_ne hx).elim
         | nil =>
           rw [hsub] at hx hfr
           simp only [] at hx hfr
           have hxo := ih x res res' hok hx hfr
-          intro h hb f pos k e hrun hp
+          intro h hb f pos k e hrun hp hg
           cases f with
           | zero => rw [Ref.run_zero] at hrun; exact nomatch hrun
           | succ f =>
@@ -2660,31 +2793,31 @@ theorem extract_sound (fo : Nat → List Nat) (hfo : OrbitSound fo) : ∀ fuel r
             | zero => rw [Ref.run_zero] at hrun; exact nomatch hrun
             | succ f =>
               rw [Ref.run_rep_succ] at hrun
-              exact hxo h hb f pos _ e hrun hp
+              exact hxo h hb f pos _ e hrun hp hg
     · -- concat
-      cases hfind : re.sub.find? (fun s => !(decide (s.op = .beginLine) || decide (s.op = .beginText))) with
-      | none => rw [hfind] at hfr; exact nomatch hfr
+      cases hfind : re.sub.find? (fun s => !isAssertionOnly s) with
+      | none => rw [hfind] at hx; exact (pair_false_ne hx).elim
       | some x =>
         rw [hfind] at hx hfr
         simp only [] at hx hfr
         have hxo := ih x res res' hok hx hfr
-        intro h hb f pos k e hrun hp
+        intro h hb f pos k e hrun hp hg
         cases f with
         | zero => rw [Ref.run_zero] at hrun; exact nomatch hrun
         | succ f =>
           rw [Ref.run_one, hop] at hrun
           simp only [] at hrun
-          exact firstOK_seq_find re.sub x hfind hxo h hb f pos k e hrun hp
+          exact firstOK_seq_find re.sub x hfind hxo h hb f pos k e hrun hp hg
     · -- alternate
       simp only [List.all_eq_true] at hfr
-      have h4 := altLoop_sound fo fuel ih re.sub res res' hok hx hfr
-      intro h hb f pos k e hrun hp
+      have h4 := altLoop_sound fo lit fuel ih re.sub res res' hok hx hfr
+      intro h hb f pos k e hrun hp hg
       cases f with
       | zero => rw [Ref.run_zero] at hrun; exact nomatch hrun
       | succ f =>
         rw [Ref.run_one, hop] at hrun
         simp only [] at hrun
-        exact firstOK_alts re.sub h4 h hb f pos k e hrun hp
+        exact firstOK_alts re.sub h4 h hb f pos k e hrun hp hg
 
 theorem extractFirstBytes_some (fo : Nat → List Nat) (re : Re) (fb : FirstByteSet)
     (hx : extractFirstBytes fo re = some fb) : extractFirstBytesRec fo 21 re {} = (true, fb) := by
@@ -2714,14 +2847,28 @@ theorem firstBytes_complete (fo : Nat → List Nat) (re : Re) (fb : FirstByteSet
   rw [Array.getD_eq_getD_getElem?, Array.getElem?_eq_none (by omega)] at hb
   exact nomatch hb
 
-/-- **Soundness of the first-byte rejection filter** on the fragment `fbFrag`: if `ExtractFirstBytes` succeeds, then
-    every NON-EMPTY haystack on which the pattern matches at offset 0 — with a match of any length, the empty one
-    included — starts with a byte of the set.  `hfo`: the `SimpleFold` orbits supplied to the model cover the (ASCII) case
-    folding of the reference matcher. -/
+/-- **Soundness of the first-byte rejection filter**, for EVERY pattern for which `ExtractFirstBytes` returns a set: every
+    NON-EMPTY haystack on which the pattern matches at offset 0 — with a match of any length, the empty one included —
+    starts with a byte of the set.  `hfo`: the `SimpleFold` orbits supplied to the model cover the (ASCII) case folding of
+    the reference matcher.  `frag`: no literal in first position starts with U+FFFD (which the reference matcher, like
+    `regexp`, also matches against an ill-formed byte), and no `{n,…}` there has `n < 0` (never parsed); nothing about
+    assertions, groups or alternatives. -/
 theorem firstBytes_filter_sound (fo : Nat → List Nat) (hfo : OrbitSound fo) (re : Re) (fb : FirstByteSet)
     (hx : extractFirstBytes fo re = some fb) (frag : fbFrag 21 re = true) (h : Bytes) (hb : ∀ i, h.at i < 256)
     (hne : 0 < h.size) (e : Nat) (hm : Ref.matchAt re h 0 = some e) : fb.contains (h.at 0) = true :=
-  extract_sound fo hfo 21 re {} fb FirstByteSet.ok_empty (extractFirstBytes_some fo re fb hx) frag h hb _ 0 _ e hm hne
+  extract_sound fo hfo true 21 re {} fb FirstByteSet.ok_empty (extractFirstBytes_some fo re fb hx) frag h hb _ 0 _ e hm hne
+    (Or.inl rfl)
+
+/-- the same with the condition on the HAYSTACK instead of the literals: for every pattern with a first-byte set
+    (`minOK`: the parser invariant `Min ≥ 0` alone — U+FFFD literals allowed) and every non-empty haystack that begins with
+    a well-formed rune (not an ill-formed byte, which `utf8.DecodeRune` reports as U+FFFD of width 1), a match at offset 0
+    starts with a byte of the set. -/
+theorem firstBytes_filter_sound_wellformed (fo : Nat → List Nat) (hfo : OrbitSound fo) (re : Re) (fb : FirstByteSet)
+    (hx : extractFirstBytes fo re = some fb) (minOK : fbMinOK 21 re = true) (h : Bytes) (hb : ∀ i, h.at i < 256)
+    (hne : 0 < h.size) (hwf : WellFormedAt h 0) (e : Nat) (hm : Ref.matchAt re h 0 = some e) :
+    fb.contains (h.at 0) = true :=
+  extract_sound fo hfo false 21 re {} fb FirstByteSet.ok_empty (extractFirstBytes_some fo re fb hx) minOK h hb _ 0 _ e hm hne
+    (Or.inr hwf)
 
 /-- in a `FoldCase` literal every member of the orbit the model was given contributes its lead byte — whatever the
     orbit is (this is where the non-ASCII fold partners, e.g. U+212A KELVIN SIGN for `k`, U+017F for `s`, enter the set;
@@ -2778,18 +2925,6 @@ theorem tableOfRangesClamped_mem (rs : List (Nat × Nat)) (b : Nat) :
   · simp [hb]
 
 /-! ## the `[cls]+` specification IS the general leftmost-first semantics (ASCII class, byte haystack) -/
-
-namespace Ref
-
-theorem run_star (h : Bytes) (f : Nat) (x : Re) (lazy : Bool) (pos : Nat) (k : Nat → Option Nat) :
-    run h (f+1) (.star x lazy) pos k =
-      if lazy then
-        orElse (k pos) fun _ => run h f (.one x) pos fun p => if p > pos then run h f (.star x lazy) p k else none
-      else
-        orElse (run h f (.one x) pos fun p => if p > pos then run h f (.star x lazy) p k else none) fun _ => k pos := by
-  rw [run]
-
-end Ref
 
 section
 attribute [local irreducible] tableOfRanges
@@ -3065,10 +3200,6 @@ theorem run_rep_zero_succ (h : Bytes) (f : Nat) (x : Re) (mx : Nat) (lazy : Bool
     run h (f+1) (.rep x 0 (some (mx+1)) lazy) pos k =
       if lazy then orElse (k pos) fun _ => run h f (.one x) pos fun p => run h f (.rep x 0 (some mx) lazy) p k
       else orElse (run h f (.one x) pos fun p => run h f (.rep x 0 (some mx) lazy) p k) fun _ => k pos := by
-  rw [run]
-
-theorem run_seq_nil (h : Bytes) (f : Nat) (pos : Nat) (k : Nat → Option Nat) :
-    run h (f+1) (.seq []) pos k = k pos := by
   rw [run]
 
 end Ref
@@ -5276,8 +5407,9 @@ theorem matchAt_beginText_concat (re a : Re) (rest : List Re) (hop : re.op = .co
   rw [if_neg hs]
 
 /-- **the callers' shortcut** (meta/find.go, find_indices.go, ismatch.go, engine.go:
-    `len(haystack) > 0 && !fb.Contains(haystack[0])` ⇒ "no match"): for a pattern `\A…` of the fragment, a non-empty
-    haystack whose first byte is not in the set has no match at all (at any offset, of any length). -/
+    `len(haystack) > 0 && !fb.Contains(haystack[0])` ⇒ "no match"): for EVERY pattern `\A…` with a first-byte set
+    (side conditions `frag` as in `firstBytes_filter_sound`), a non-empty haystack whose first byte is not in the set has
+    no match at all (at any offset, of any length). -/
 theorem firstBytes_reject_sound (fo : Nat → List Nat) (hfo : OrbitSound fo) (re a : Re) (rest : List Re)
     (hop : re.op = .concat) (hsub : re.sub = a :: rest) (ha : a.op = .beginText) (fb : FirstByteSet)
     (hx : extractFirstBytes fo re = some fb) (frag : fbFrag 21 re = true) (h : Bytes) (hb : ∀ i, h.at i < 256)
@@ -5291,6 +5423,24 @@ theorem firstBytes_reject_sound (fo : Nat → List Nat) (hfo : OrbitSound fo) (r
     | none => rfl
     | some e =>
       have := firstBytes_filter_sound fo hfo re fb hx frag h hb hne e hm
+      rw [hrej] at this
+      exact nomatch this
+  · exact matchAt_beginText_concat re a rest hop hsub ha h s' hs
+
+/-- the shortcut for haystacks that begin with a well-formed rune: no condition on the literals of the pattern -/
+theorem firstBytes_reject_sound_wellformed (fo : Nat → List Nat) (hfo : OrbitSound fo) (re a : Re) (rest : List Re)
+    (hop : re.op = .concat) (hsub : re.sub = a :: rest) (ha : a.op = .beginText) (fb : FirstByteSet)
+    (hx : extractFirstBytes fo re = some fb) (minOK : fbMinOK 21 re = true) (h : Bytes) (hb : ∀ i, h.at i < 256)
+    (hne : 0 < h.size) (hwf : WellFormedAt h 0) (hrej : fb.contains (h.at 0) = false) : Ref.refFind re h 0 = none := by
+  unfold Ref.refFind
+  apply findLoop_none
+  intro s' _
+  by_cases hs : s' = 0
+  · subst hs
+    cases hm : Ref.matchAt re h 0 with
+    | none => rfl
+    | some e =>
+      have := firstBytes_filter_sound_wellformed fo hfo re fb hx minOK h hb hne hwf e hm
       rw [hrej] at this
       exact nomatch this
   · exact matchAt_beginText_concat re a rest hop hsub ha h s' hs
